@@ -60,8 +60,15 @@ def mk_transform(env):
         env.event("call", "tp")
         return "tp"
 
+    def post(v):
+        env.event("call", "tp-post")
+        return ("post", v)
+
     def transform(plan, out):
         plan.call(marker)
+        if out is not None:
+            # ... and that REDIRECTS the output to a post-processing call: the dry run must return this new output node
+            return plan, plan.call(post, out)
         return plan, out
     return transform
 
